@@ -83,6 +83,15 @@ class Lock:
         self.f.close()
 
 
+def big_stack():
+    # deep (2000-level) documents recurse in the harness models and in json-c's own destructor
+    import resource
+    try:
+        resource.setrlimit(resource.RLIMIT_STACK, (1 << 30, resource.RLIM_INFINITY))
+    except (ValueError, OSError):
+        pass
+
+
 def run(cmd, **kw):
     return subprocess.run(cmd, stdout=subprocess.PIPE, stderr=subprocess.STDOUT, text=True, **kw)
 
@@ -282,7 +291,7 @@ def replay_case(exe, prop, path, kf, mode=None, timeout=300):
     if mode:
         cmd += ["--mode", mode]
     try:
-        r = run(cmd, env=child_env(prop), timeout=timeout)
+        r = run(cmd, env=child_env(prop), timeout=timeout, preexec_fn=big_stack)
     except subprocess.TimeoutExpired:
         return "timeout", ""
     if r.returncode == 0:
@@ -454,7 +463,7 @@ def main():
                 extra = {}
                 if step.get("pin"):
                     extra["VERIF_PIN_BASE"] = str(0)
-                p = subprocess.Popen(cmd, stdout=subprocess.DEVNULL, stderr=errf, env=child_env(prop, extra))
+                p = subprocess.Popen(cmd, stdout=subprocess.DEVNULL, stderr=errf, env=child_env(prop, extra), preexec_fn=big_stack)
                 procs.append((w, out, p, errf))
             for w, out, p, errf in procs:
                 try:
@@ -595,7 +604,7 @@ def run_fuzz_step(pid, prop, step, seed, kf_all, rundir, agg, hashfiles, confirm
                                "VERIF_FUZZ_STATS": os.path.join(d, "stats.json")})
         env["ASAN_OPTIONS"] = env["ASAN_OPTIONS"].replace("handle_abort=1", "handle_abort=2")
         errf = open(os.path.join(d, "log"), "w")
-        procs.append((d, subprocess.Popen(cmd, stdout=errf, stderr=errf, env=env), errf))
+        procs.append((d, subprocess.Popen(cmd, stdout=errf, stderr=errf, env=env, preexec_fn=big_stack), errf))
     for d, p, errf in procs:
         try:
             p.wait(timeout=secs * 3 + 600)
